@@ -462,6 +462,7 @@ void svt_av1_queue_parse_jobs(EbDecHandle *dec_handle_ptr, TilesInfo *tiles_info
         sb_size_h;
 
     SVT_VERIF_EV("dec", dec_handle_ptr, "FrmRst", picture_height_in_sb, tiles_info->tile_cols, tiles_info->tile_rows);
+    SVT_VERIF_EV("decsb", dec_handle_ptr, "SbRst", picture_height_in_sb);
     EB_MEMSET(dec_mt_frame_data->sb_recon_row_map,
               0,
               picture_height_in_sb * tiles_info->tile_cols * sizeof(uint32_t));
